@@ -33,7 +33,7 @@ def check_C14(tier):
         else:
             rep.floor("%s: table obligations" % cfg, len(obs), 1 + 651 + 28 + 20 + 2 + 11 + 23 + 1)
     # bundled libm (only compiled without std): split constants of powf/powd
-    lcl = ["nostd_compact"] if tier == "quick" else [c for c in F.ALL_CONFIGS if c.startswith("nostd")]
+    lcl = ["nostd_compact"] if tier == "quick" else [c for c in F.ALL_CONFIGS if c.startswith("nostd") and "compact" in c]
     lfx = F.build_many([(c, "rel") for c in lcl])
     for c in lcl:
         lobs = K.libm_rules(lfx[(c, "rel")])
